@@ -6,7 +6,8 @@ case = {"part": "b", "ns": "props" | "params" | "schemas" | "enum" | "ops", "nam
 Oracles (none may be dropped or merged; every one keeps its own identity):
   props   : schema Obj has one integer property per raw name.  Obj has len(names) fields and decoding {raw_i: i+1} and encoding
             it again returns exactly that object (each raw name has its own field and its own wire key).
-  params  : one operation with one optional integer query parameter per raw name.  The method takes len(names) parameters and,
+  params  : one operation with one optional integer query parameter per raw name (params_pathlevel: the first one declared on the
+            path item; params_multicontent: on an operation with two request content types - signature only).  The method takes len(names) parameters and,
             called with pairwise distinct values, sends every raw name with a distinct value.
   schemas : one object schema per raw name with a single required property p<i>, and a Holder whose property h<i> references
             schema i.  The models package has a dataclass with field set {p<i>} for every i and Holder.h<i> is annotated with it.
@@ -25,7 +26,7 @@ import typing
 from .. import domain, drive, genrun, hyp
 from ..runner import Collector, Violation
 
-NAMESPACES = ["props", "params", "schemas", "enum", "ops", "ops_multitag"]
+NAMESPACES = ["props", "params", "params_pathlevel", "params_multicontent", "schemas", "enum", "ops", "ops_multitag"]
 
 # a fixed cluster whose members collide with each other or with the suffixed name handed to another member
 CLUSTER = ["foo-bar", "foo_bar", "fooBar", "FooBar", "foo bar", "foo.bar", "FOO_BAR", "foo_bar_1", "foo_bar_2", "foo-bar-1", "fooBar1", "foo_bar1", "foo__bar", "_foo_bar", "foo_bar_"]
@@ -58,6 +59,16 @@ def build_spec(ns: str, names: list[str]) -> dict:
         spec["paths"]["/obj"] = {"get": {"operationId": "getObj", "tags": ["t"], "responses": {"200": {"description": "ok", "content": {"application/json": {"schema": {"$ref": "#/components/schemas/Obj"}}}}}}}
     elif ns == "params":
         spec["paths"]["/r"] = {"get": {"operationId": "getR", "tags": ["t"], "parameters": [{"name": n, "in": "query", "schema": {"type": "integer"}} for n in names], "responses": ok}}
+    elif ns == "params_pathlevel":
+        # the first parameter is declared on the path item, the others on the operation (same location)
+        spec["paths"]["/r"] = {"parameters": [{"name": names[0], "in": "query", "schema": {"type": "integer"}}],
+                               "get": {"operationId": "getR", "tags": ["t"], "parameters": [{"name": n, "in": "query", "schema": {"type": "integer"}} for n in names[1:]], "responses": ok}}
+    elif ns == "params_multicontent":
+        # the same parameters on an operation with several request content types (rendered through the @overload path)
+        spec["paths"]["/r"] = {"post": {"operationId": "postR", "tags": ["t"], "parameters": [{"name": n, "in": "query", "schema": {"type": "integer"}} for n in names],
+                                        "requestBody": {"required": True, "content": {"application/json": {"schema": {"type": "object", "properties": {"a": {"type": "string"}}}},
+                                                                                     "multipart/form-data": {"schema": {"type": "object", "properties": {"file": {"type": "string", "format": "binary"}}}}}},
+                                        "responses": ok}}
     elif ns == "schemas":
         for i, n in enumerate(names):
             schemas[n] = {"type": "object", "properties": {f"p{i}": {"type": "integer"}}, "required": [f"p{i}"]}
@@ -156,7 +167,7 @@ def run_case(case: dict) -> tuple[list[Violation], str]:
                             if tp not in want:
                                 viols.append(Violation(("collide", ns, "reference_to_wrong_class"), f"names={names!r}: Holder.h{i} -> {tp!r}, expected the class of {names[i]!r}"))
                                 break
-            elif ns == "params":
+            elif ns in ("params", "params_pathlevel", "params_multicontent"):
                 import inspect
 
                 clients = sess.tag_clients()
@@ -166,7 +177,12 @@ def run_case(case: dict) -> tuple[list[Violation], str]:
                 else:
                     fn = next(iter(fns.values()))
                     ps = [n for n, p in inspect.signature(fn).parameters.items() if p.kind not in (p.VAR_KEYWORD, p.VAR_POSITIONAL)]
-                    if len(ps) != k:
+                    if ns == "params_multicontent":
+                        # body arguments are not parameters; what reaches the wire is C04's business (C04-F01): here only the signature
+                        ps = [n for n in ps if n not in ("body", "files", "form_data", "bytes_content", "content_type")]
+                        if len(ps) != k or len(set(ps)) != k:
+                            viols.append(Violation(("collide", ns, "dropped_or_merged"), f"names={names!r}: parameters {ps!r}"))
+                    elif len(ps) != k:
                         viols.append(Violation(("collide", ns, "dropped_or_merged"), f"names={names!r}: parameters {ps!r}"))
                     else:
                         out = sess.call(fn, {p: 100 + i for i, p in enumerate(ps)})
@@ -208,7 +224,7 @@ def features(case: dict) -> set[str]:
             out.add("schemas_same_class_name")
         if any(not any(c.isascii() and c.isalpha() for c in n) for n in names):
             out.add("schema_name_without_letters")
-    if ns == "params":
+    if ns in ("params", "params_pathlevel", "params_multicontent"):
         ids = [NameSanitizer.sanitize_method_name(n) for n in names]
         if len(set(ids)) < len(ids):
             out.add("params_same_identifier")
@@ -220,6 +236,7 @@ def nontrivial(case: dict) -> bool:
     from pyopenapi_gen.core.utils import NameSanitizer
 
     fn = {"props": NameSanitizer.sanitize_method_name, "params": NameSanitizer.sanitize_method_name, "ops": NameSanitizer.sanitize_method_name,
+          "params_pathlevel": NameSanitizer.sanitize_method_name, "params_multicontent": NameSanitizer.sanitize_method_name,
           "ops_multitag": NameSanitizer.sanitize_method_name,
           "schemas": NameSanitizer.sanitize_class_name, "enum": lambda s: s.upper().replace("-", "_").replace(" ", "_")}[case["ns"]]
     try:
